@@ -193,3 +193,56 @@ def string_matcher(facts, fn, folds=None):
 
 def calls_in(t):
     return [s[1] for s in subterms(t) if isinstance(s, tuple) and s and s[0] in ("call",)] + [s[2] for s in subterms(t) if isinstance(s, tuple) and s and s[0] == "mut"]
+
+
+def eval_usize(facts, t, depth=0):
+    """Value of a usize expression built from integer constants, `+`, `.len()` of byte/str constants and of
+    enum-to-constant tables (`Method::Get.raw().len()`), and calls of argument-less local functions made of the
+    same.  None if anything else occurs."""
+    from .rules.util import look, last_seg
+    t = look(t)
+    if depth > 6:
+        return None
+    if t[0] == "const":
+        return t[1] if isinstance(t[1], int) and not isinstance(t[1], bool) else None
+    if t[0] == "field" and t[2] == "tuple" and t[3] == "0":
+        u = look(t[1])
+        if u[0] == "bin" and u[1] in ("AddWithOverflow", "MulWithOverflow"):
+            t = ("bin", u[1][:3], u[2], u[3])
+    if t[0] == "bin" and t[1] in ("Add", "Mul", "AddUnchecked"):
+        a, b = eval_usize(facts, t[2], depth + 1), eval_usize(facts, t[3], depth + 1)
+        if a is None or b is None:
+            return None
+        return a * b if t[1] == "Mul" else a + b
+    if t[0] == "cast":
+        return eval_usize(facts, t[1], depth + 1)
+    if t[0] == "call" and last_seg(t[1]) == "len" and len(t[2]) == 1:
+        v = eval_bytes(facts, t[2][0], depth + 1)
+        return None if v is None else len(v)
+    if t[0] == "call" and t[1] in facts.fns and not t[2]:
+        rets = [lf for lf in PathEnum(facts.fns[t[1]], facts).run()]
+        if len(rets) == 1 and rets[0].kind == "return" and not rets[0].conds:
+            return eval_usize(facts, rets[0].ret(), depth + 1)
+    return None
+
+
+def eval_bytes(facts, t, depth=0):
+    from .rules.util import look
+    t = look(t)
+    if t[0] == "const":
+        v = t[1]
+        if isinstance(v, str):
+            return v.encode()
+        return v if isinstance(v, bytes) else None
+    if t[0] == "call" and t[1] in facts.fns and len(t[2]) == 1:
+        a = look(t[2][0])
+        if a[0] == "agg" and not a[3]:
+            try:
+                table = enum_const_table(facts, facts.fns[t[1]], a[1])
+            except AnalysisError:
+                return None
+            v = table.get(a[2])
+            if isinstance(v, str):
+                return v.encode()
+            return v if isinstance(v, bytes) else None
+    return None
